@@ -123,6 +123,28 @@ def run(ctx):
             ctx.violation("property_fails", "loaded result is not field-wise identical to the saved one: " + msg, case, True)
         if not eq or not bool(res == loaded):
             ctx.violation("property_fails", "loaded result does not compare equal to the original", case, True)
+        # "equal in every field": the fields hold the same KIND of value, so every accessor that works on the original works on the loaded result
+        kinds = lambda r: (sorted((int(k), type(v).__name__) for k, v in r.layers.items()), [type(h).__name__ for h in r.layers_hashes],  # noqa: E731
+                           type(r.edges_list_hashes).__name__, type(r.layer_sizes).__name__, type(r.bfs_completed).__name__)
+        if kinds(res) != kinds(loaded):
+            ctx.violation("property_fails", f"loaded result holds fields of another kind than the original: {kinds(loaded)} vs {kinds(res)}", dict(case, claim="field_kinds"), True)
+        accessors = [("diameter", lambda r: r.diameter()), ("num_vertices", lambda r: r.num_vertices), ("last_layer", lambda r: np.asarray(r.last_layer()).tolist()),
+                     ("get_layer(0)", lambda r: np.asarray(r.get_layer(0)).tolist()), ("to_device", lambda r: r.to_device("cpu").layer_sizes)]
+        if len(res.layers) == len(res.layer_sizes):
+            accessors += [("vertex_names", lambda r: list(r.vertex_names)), ("all_states", lambda r: r.all_states.tolist())]
+            if kw.get("return_all_edges") and kw.get("return_all_hashes"):
+                accessors += [("edges_list", lambda r: np.asarray(r.edges_list).tolist())]
+        for aname, f in accessors:
+            outs = []
+            for r in (res, loaded):
+                try:
+                    outs.append(("ok", f(r)))
+                except Exception as ex:  # pylint: disable=broad-except
+                    outs.append(("raises", type(ex).__name__))
+            ctx.count("accessor_compared")
+            if outs[0] != outs[1]:
+                ctx.violation("property_fails", f"{aname} on the loaded result gives {str(outs[1])[:80]}, on the original {str(outs[0])[:80]}", dict(case, claim="accessor", accessor=aname), True)
+                break
         # equality must distinguish results that differ in one field
         variants = [dataclasses.replace(res, bfs_completed=not res.bfs_completed),
                     dataclasses.replace(res, layer_sizes=list(res.layer_sizes) + [1]),
